@@ -1,14 +1,14 @@
 package storesim
 
 import (
-	"github.com/google/uuid"
-	"os"
-	"strings"
 	"context"
 	"fmt"
+	"github.com/google/uuid"
 	"io"
 	"math"
+	"os"
 	"sort"
+	"strings"
 	"testing"
 	"time"
 
@@ -40,34 +40,34 @@ type ClusterCase struct {
 	PageSizes    []int        `json:"page_sizes"`
 	Schedule     []int        `json:"schedule,omitempty"`
 	// faulty-cluster profiles (clusterf.go): "" = the fault-free layout check of C05/C06
-	Profile      string `json:"profile,omitempty"`
-	ColdShards   int    `json:"cold_shards,omitempty"`
-	ColdReplicas int    `json:"cold_replicas,omitempty"`
-	HotMode      string `json:"hot_mode,omitempty"`       // store mode of the hot tier: hot | cold
-	HotTotalSize uint64 `json:"hot_total_size,omitempty"` // size-based retention of the hot tier (0 = none)
-	Faults       []*simos.Fault    `json:"faults,omitempty"`     // disk fault plan (per node), armed by group
-	NetFaults    map[string]string `json:"net_faults,omitempty"` // "host/Method/n" -> drop_request | drop_reply
+	Profile      string            `json:"profile,omitempty"`
+	ColdShards   int               `json:"cold_shards,omitempty"`
+	ColdReplicas int               `json:"cold_replicas,omitempty"`
+	HotMode      string            `json:"hot_mode,omitempty"`       // store mode of the hot tier: hot | cold
+	HotTotalSize uint64            `json:"hot_total_size,omitempty"` // size-based retention of the hot tier (0 = none)
+	Faults       []*simos.Fault    `json:"faults,omitempty"`         // disk fault plan (per node), armed by group
+	NetFaults    map[string]string `json:"net_faults,omitempty"`     // "host/Method/n" -> drop_request | drop_reply
 }
 
 type clusterRunner struct {
-	c      *ClusterCase
-	s      *verifsim.Sim
-	w      *simos.World
-	res    *Result
-	stores []*simenv.Store // shard-major
-	net    *simenv.Net
-	client *bulk.SeqDBClient
-	ing    *search.Ingestor
-	corpus *model.Corpus
-	log    []string
-	start  time.Time
+	c       *ClusterCase
+	s       *verifsim.Sim
+	w       *simos.World
+	res     *Result
+	stores  []*simenv.Store // shard-major
+	net     *simenv.Net
+	client  *bulk.SeqDBClient
+	ing     *search.Ingestor
+	corpus  *model.Corpus
+	log     []string
+	start   time.Time
 	layouts map[string]bool
 	hasDups bool // some document is present on more than one shard
 	// faulty-cluster profiles
-	maybe    map[model.ID]*model.Doc // documents of bulks that were not acknowledged
-	asyncIDs map[string]string       // case-level id -> id the proxy generated
-	nHot     int                     // stores[:nHot] are the hot tier
-	acked    [][]*model.Doc          // acknowledged bulks
+	maybe         map[model.ID]*model.Doc // documents of bulks that were not acknowledged
+	asyncIDs      map[string]string       // case-level id -> id the proxy generated
+	nHot          int                     // stores[:nHot] are the hot tier
+	acked         [][]*model.Doc          // acknowledged bulks
 	hotSt, coldSt *stores.Stores
 }
 
@@ -115,6 +115,11 @@ func RunCluster(t *testing.T, c *ClusterCase, done func(*Result)) {
 		}
 		for k, v := range r.net.Stats {
 			res.Probes["net:"+k] = v
+		}
+		for k, v := range logger.SinkSnapshot() {
+			if !strings.HasPrefix(k, "info:") {
+				res.Probes["log:"+k] = v
+			}
 		}
 		for l := range r.layouts {
 			res.States = append(res.States, l)
